@@ -62,6 +62,43 @@ def fs_histories(ctx, n, max_calls, ops_level=True, rs_choices=(1, 2, 3, 7, 20, 
     return hs
 
 
+CONFUSABLE = [("a", "A"), ("a_", "ab"), ("a%", "abc"), ("a", "ab"), ("a b", "a"), ("x.gz", "x"), ("Data", "data"), ("é", "e"),
+              ("a%", "a%b"), ("a_", "a_b"), ("a", "a%"), ("a%b", "a%"), ("a", "a/"), ("%", "x"), ("_", "x"), ("a%", "ab")]
+
+
+def scenario_histories(ctx):
+    """Directed scenarios: sibling directories whose names are confusable for SQL LIKE / prefix logic, each with
+    descendants, then a recursive remove or rename of one of them (at the root and nested)."""
+    hs = []
+    rs_cycle = [20, 3, 1, 7]
+    k = 0
+    for base in ("", "/p"):
+        for (x, y) in CONFUSABLE:
+            for op in ("removeall", "rename", "rename-over", "removeall-other"):
+                if "/" in x or "/" in y:
+                    continue
+                X, Y, Z = base + "/" + x, base + "/" + y, base + "/z"
+                calls = [{"op": "initialize"}]
+                if base:
+                    calls.append({"op": "mkdir", "name": base, "perm": 0o755})
+                calls += [{"op": "mkdir", "name": X, "perm": 0o755}, {"op": "mkdir", "name": Y, "perm": 0o755},
+                          {"op": "createfile", "name": Y + "/c", "blob": 0}, {"op": "mkdirall", "name": Y + "/d/e", "perm": 0o755},
+                          {"op": "createfile", "name": X + "/k", "blob": 1}, {"op": "mkdir", "name": X + "/m", "perm": 0o700}]
+                if op == "removeall":
+                    calls.append({"op": "removeall", "name": X})
+                elif op == "removeall-other":
+                    calls.append({"op": "removeall", "name": Y})
+                elif op == "rename":
+                    calls.append({"op": "rename", "name": X, "name2": Z})
+                else:
+                    calls += [{"op": "mkdir", "name": Z, "perm": 0o755}, {"op": "rename", "name": Y, "name2": Z}]
+                calls += [{"op": "chmod", "name": Y + "/c", "perm": 0o600}, {"op": "remove", "name": X + "/k"}]
+                rs = rs_cycle[k % len(rs_cycle)]
+                k += 1
+                hs.append({"config": {"rs": rs, "cache": "file"}, "blobs": [{"seed": 1, "len": 700}, {"seed": 2, "len": 10}], "obs": FS_OBS, "calls": calls, "_scenario": "%s:%s/%s" % (op, x, y)})
+    return hs
+
+
 def fs_stream(ctx):
     """The FS history stream (C01 C02 C04 C05 C12 C13): corpus first, then generated histories.
     Returns list of dicts {h, res, rc, err}."""
@@ -77,6 +114,7 @@ def fs_stream(ctx):
         h = dict(h)
         h.setdefault("obs", FS_OBS)
         hs.append(h)
+    hs += scenario_histories(ctx)
     hs += fs_histories(ctx, 40 if quick else 400, 16 if quick else 40, ops_level=True)
     hs += fs_histories(ctx, 30 if quick else 300, 14 if quick else 30, ops_level=False)
     res = hist.run_many(hs)
